@@ -205,9 +205,11 @@ class ADWINDriver(_UniDriver):
     def configs(self, tier):
         return [
             {"delta": 1.0, "max_buckets": 2, "new_sample_thresh": 1, "window_size_thresh": 0, "subwindow_size_thresh": 1},
-            {"delta": 0.5, "max_buckets": 1, "new_sample_thresh": 2, "window_size_thresh": 2, "subwindow_size_thresh": 1},
-            {"delta": 0.5, "max_buckets": 2, "new_sample_thresh": 3, "window_size_thresh": 4, "subwindow_size_thresh": 2},
+            # check periods > 1 whose cuts leave windows that are NOT multiples of the period (the schedule is on total_samples)
+            {"delta": 1.0, "max_buckets": 2, "new_sample_thresh": 3, "window_size_thresh": 3, "subwindow_size_thresh": 1},
+            {"delta": 1.0, "max_buckets": 5, "new_sample_thresh": 4, "window_size_thresh": 0, "subwindow_size_thresh": 1, "conservative_bound": True},
             {"delta": 0.3, "max_buckets": 5, "new_sample_thresh": 1, "window_size_thresh": 2, "subwindow_size_thresh": 2, "conservative_bound": True},
+            {"delta": 0.5, "max_buckets": 1, "new_sample_thresh": 2, "window_size_thresh": 2, "subwindow_size_thresh": 1},
         ]
 
     def extra_obs(self, det):
@@ -287,6 +289,8 @@ class PCACDDriver(Driver):
             {"window_size": 3, "sample_period": 0.34, "divergence_metric": "intersection", "delta": 0.0, "ev_threshold": 0.99},
             {"window_size": 4, "sample_period": 0.5, "divergence_metric": "intersection", "delta": 0.1, "ev_threshold": 0.6},
             {"window_size": 3, "sample_period": 0.34, "divergence_metric": "kl", "delta": 0.0, "ev_threshold": 0.99},
+            {"window_size": 3, "sample_period": 0.34, "divergence_metric": "intersection", "delta": 0.0, "ev_threshold": 0.99, "online_scaling": False},
+            {"window_size": 4, "sample_period": 0.25, "divergence_metric": "kl", "delta": 0.0, "ev_threshold": 0.6, "online_scaling": False},
         ]
 
     def feed(self, det, sym, p):
